@@ -149,7 +149,10 @@ type BlockSpec struct {
 // PlanSpec describes a whole plan as it is stored.
 type PlanSpec struct {
 	// Seed derives every id and key of the plan (see V7). Its low byte is unique among the plans of a case.
-	Seed    uint64
+	Seed uint64
+	// IDBase is added to the id index of every object below the plan (the plan id itself stays V7(Seed, 0)): two
+	// specifications with the same Seed and different IDBase collide in the plan id only.
+	IDBase  uint32 `json:",omitempty"`
 	Name    string
 	Descr   string
 	Group   int
@@ -268,6 +271,7 @@ func BuildAttempts(plugin int, ats []AttemptSpec) []*workflow.Attempt {
 
 type builder struct {
 	seed   uint64
+	base   uint32
 	next   uint32
 	planID uuid.UUID
 	user   bool // build what a user hands to Submit: no ids, no state, no attempts
@@ -277,9 +281,12 @@ func (b *builder) id() uuid.UUID {
 	if b.user {
 		return uuid.Nil
 	}
-	u := V7(b.seed, b.next)
+	idx := b.next
+	if idx > 0 {
+		idx += b.base
+	}
 	b.next++
-	return u
+	return V7(b.seed, idx)
 }
 
 // key returns the user key for the object that has just been given its id (same index, separate seed space). In user
@@ -332,7 +339,7 @@ func (b *builder) checks(c *ChecksSpec) *workflow.Checks {
 }
 
 func (b *builder) plan(ps PlanSpec) *workflow.Plan {
-	b.seed = ps.Seed
+	b.seed, b.base = ps.Seed, ps.IDBase
 	p := &workflow.Plan{Name: ps.Name, Descr: ps.Descr, GroupID: GroupID(ps.Group)}
 	p.ID = b.id()
 	if b.user {
